@@ -20,7 +20,7 @@ def check(tier, seed, replay=None):
     run.cov["rule"] = ("one generated schema per batch: consts of every type and literal form (decimal / hex / negative / 64-bit boundaries, floats incl. inf / nan, strings with escapes, bools, guids), "
                        "plain enums over all 8 base types with boundary and random values, [flags] enums with fully parenthesised expression trees (| & << >> over literals and earlier members, "
                        "depth <= 3, incl. shifts that overflow the base type followed by >>), structs / messages / unions with numeric and 4-character opcodes; the package the current generator emits "
-                       "is compiled with a main that prints every constant (typed conversion to the declared type, reflect for the enum's type name and kind); printed values are compared with the "
+                       "(and integer opcode literals at and beyond 2^32, which must be rejected or carried exactly) is compiled with a main that prints every constant (typed conversion to the declared type, reflect for the enum's type name and kind); printed values are compared with the "
                        "schema's values computed independently (width-typed two's complement arithmetic); distinct = distinct constants")
     run.cov["trusted_base"] = TRUSTED_BASE_COMMON + ["the Go compiler's reading of the emitted literals is the observable; Python's width-typed evaluation of the parenthesised flag expressions is the oracle"]
     broken = None
@@ -159,6 +159,31 @@ def check(tier, seed, replay=None):
             if so.strip() != want and not run.known(*KNOWN[case]):
                 found = True
                 run.violation({"what": "constant values differ from the schema's", "schema": schema, "go_values": so.strip(), "expected": want})
+        # values the Go constant cannot carry: the schema must be rejected, or else the constant must still print the schema's value
+        # (an integer opcode is a uint32: 2^32 and beyond cannot be an opcode)
+        for lit, val in (("4294967295", 4294967295), ("4294967296", 4294967296), ("4294967297", 4294967297), ("0x100000000", 1 << 32), ("0x131323334", 0x131323334),
+                         ("8589934593", 8589934593), ("18446744073709551615", (1 << 64) - 1), ("0xffffffff", 0xffffffff)):
+            for rec in ("struct A { int32 x; }", "message A { 1 -> int32 x; }", "union A { 1 -> struct B { int32 x; } }"):
+                schema = "[opcode(%s)]\n%s\n" % (lit, rec)
+                shutil.rmtree(d, ignore_errors=True)
+                os.makedirs(os.path.join(d, "pkg"))
+                open(os.path.join(d, "schema.bop"), "w").write(schema)
+                rc, so, se = sh([bgen, os.path.join(d, "schema.bop"), os.path.join(d, "pkg", "gen.go"), "pkg", "0"], timeout=120)
+                total += 1
+                run.nontrivial("opcode literal %s on %s" % (lit, rec.split()[0]))
+                if rc != 0:
+                    if val < (1 << 32):
+                        found = True
+                        run.violation({"what": "a schema with a 32-bit integer opcode is rejected: " + se[:300], "schema": schema})
+                    continue
+                open(os.path.join(d, "main.go"), "w").write('package main\n\nimport (\n\t"fmt"\n\n\t"wt/pkg"\n)\n\nfunc main() { fmt.Println(uint64(pkg.AOpCode)) }\n')
+                open(os.path.join(d, "go.mod"), "w").write("module wt\n\ngo 1.21\n\nrequire github.com/200sc/bebop v0.0.0\n\nreplace github.com/200sc/bebop => %s\n" % REPO)
+                rc, so, se = sh(["go", "run", "."], cwd=d, timeout=300)
+                if rc != 0 or so.strip() != str(val):
+                    found = True
+                    if len(run.violations) < 6:
+                        run.violation({"what": "the schema is accepted but the generated opcode constant does not carry the schema's value", "schema": schema,
+                                       "schema_value": val, "go_value": so.strip() if rc == 0 else ("does not build: " + se[:300])})
     finally:
         shutil.rmtree(d, ignore_errors=True)
     run.count("evaluations", total)
